@@ -253,6 +253,12 @@ func (fr *Frame) execAlloc(i *ssa.Alloc) {
 		hn, hs := U.ptrHeapT(elem)
 		h := vc.heap(fr.st, hn, hs)
 		vc.setHeap(fr.st, hn, hs, store(h, r, fr.zero(elem)))
+		if i.Heap && vc.eng.privateAlloc(i) {
+			if fr.cells == nil {
+				fr.cells = map[*ssa.Alloc]cellInfo{}
+			}
+			fr.cells[i] = cellInfo{heap: hn, hsort: hs, esort: U.sortOf(elem), ref: r}
+		}
 	}
 }
 
@@ -1025,8 +1031,10 @@ func (fr *Frame) execSelect(i *ssa.Select) {
 					}
 				}
 			}
+			fr.sendNonBlocking = !i.Blocking
 			fr.onSend(fr.val(s.Chan), fr.val(s.Send), s.Pos)
 			fr.sendCancellable = false
+			fr.sendNonBlocking = false
 			fr.reach = savedReach
 		}
 	}
